@@ -509,7 +509,7 @@ impl<'a> Renderer<'a> {
         }
     }
 
-    fn needs_paren(child: &Expr, parent: BinOp, right: bool) -> bool {
+    pub fn needs_paren(child: &Expr, parent: BinOp, right: bool) -> bool {
         match child {
             Expr::Bin(_, cop, _) => {
                 let (pg, cg) = (parent.doc_group(), cop.doc_group());
